@@ -468,6 +468,9 @@ class TermCanvas(Canvas):
 
         self.height = height
 
+        # lines may have moved between the scrollback buffer and the screen
+        self.scrolling_up = min(self.scrolling_up, len(self.scrollback_buffer))
+
         self.reset_scroll()
 
         x, y = self.constrain_coords(x, y)
